@@ -247,7 +247,25 @@ pub const FAULTS: [&str; 8] = [
     "RETURN without GOSUB",
 ];
 
-pub const CONTAINERS: [&str; 10] = ["main", "IF block", "ELSE block", "FOR body", "WHILE body", "DO body", "CASE block", "SUB body", "FUNCTION body", "end of the module (subprograms follow)"];
+pub const CONTAINERS: [&str; 17] = [
+    "main",
+    "IF block",
+    "ELSE block",
+    "FOR body",
+    "WHILE body",
+    "DO body",
+    "CASE block",
+    "SUB body",
+    "FUNCTION body",
+    "end of the module (subprograms follow)",
+    "ELSEIF block (an ELSEIF and an ELSE follow)",
+    "middle CASE block (a matching CASE and a CASE ELSE follow)",
+    "CASE ELSE block",
+    "FOR STEP -1 body",
+    "DO WHILE body (test at the top)",
+    "IF block that ends a FOR body",
+    "single-line IF",
+];
 
 pub const HANDLERS: [&str; 7] = [
     "no handler",
@@ -366,6 +384,42 @@ pub fn fault_program(fault: usize, container: usize, position: usize, handler: u
         6 => {
             let other = vec![b.print(vec![st("case else")])];
             main.push(b.s(K::Select { subject: num(1), cases: vec![(vec![CaseExpr::Simple(num(1))], inner)], els: Some(other) }));
+        }
+        10 => {
+            let t = vec![b.print(vec![st("then branch")])];
+            let o1 = vec![b.print(vec![st("second elseif branch")])];
+            let o2 = vec![b.print(vec![st("else branch")])];
+            main.push(b.s(K::If { arms: vec![(num(0), t), (num(-1), inner), (num(-1), o1)], els: Some(o2), single_line: false }));
+        }
+        11 => {
+            let c1 = vec![b.print(vec![st("case 1")])];
+            let c3 = vec![b.print(vec![st("case 2 again")])];
+            let other = vec![b.print(vec![st("case else")])];
+            main.push(b.s(K::Select {
+                subject: num(2),
+                cases: vec![(vec![CaseExpr::Simple(num(1))], c1), (vec![CaseExpr::Simple(num(2))], inner), (vec![CaseExpr::Range(num(2), num(3))], c3)],
+                els: Some(other),
+            }));
+        }
+        12 => {
+            let c1 = vec![b.print(vec![st("case 1")])];
+            main.push(b.s(K::Select { subject: num(5), cases: vec![(vec![CaseExpr::Simple(num(1))], c1)], els: Some(inner) }));
+        }
+        13 => main.push(b.s(K::For { var: var("I%"), from: num(2), to: num(1), step: Some(num(-1)), body: inner, next_var: true })),
+        14 => {
+            let mut body = vec![b.assign(var("C%"), bin(BinOp::Add, var("C%"), num(1)))];
+            body.extend(inner);
+            main.push(b.s(K::Do(DoKind::WhileTop, bin(BinOp::Lt, var("C%"), num(2)), body)));
+        }
+        15 => {
+            let e = vec![b.print(vec![st("else branch")])];
+            let iff = b.s(K::If { arms: vec![(num(-1), inner)], els: Some(e), single_line: false });
+            let head = b.print(vec![st("i"), var("I%")]);
+            main.push(b.s(K::For { var: var("I%"), from: num(1), to: num(2), step: None, body: vec![head, iff], next_var: false }));
+        }
+        16 => {
+            let e = vec![b.print(vec![st("else branch")])];
+            main.push(b.s(K::If { arms: vec![(num(-1), inner)], els: Some(e), single_line: true }));
         }
         9 => {
             main.extend(inner);
